@@ -559,6 +559,9 @@ namespace detail_ {
 					case modes::pos:
 						if (isdigit(c)) {
 							pos_set = true;
+							// A position that overflows is certainly out of range.
+							if (tmp_pos > (size_t(-1) - (c - '0')) / 10)
+								return false;
 							tmp_pos *= 10;
 							tmp_pos += c - '0';
 						} else if (c == ':') {
@@ -579,6 +582,8 @@ namespace detail_ {
 
 					case modes::width:
 						if (isdigit(c)) {
+							if (fo.minimum_width > (__INT_MAX__ - (c - '0')) / 10)
+								return false;
 							fo.minimum_width *= 10;
 							fo.minimum_width += spec[i] - '0';
 						} else {
